@@ -1,6 +1,7 @@
 """C03 — stream framing is independent of how the byte stream is split into reads.
 Spec: spec/Framing.tla (+FramingGen, FramingTrace). Driver: qxv framing. Corpus: lib/framing_corpus.py."""
 import concurrent.futures as cf
+import hashlib
 import json
 import os
 
@@ -21,32 +22,49 @@ def _negative_control(cfg):
     return {"cfg": cfg, "violates_invariant": True, "wall_s": round(wall, 2)}
 
 
-def _stream_lines(st, comps, quick, rand_count):
-    """input lines of one corpus stream: definition (reference run), then its executions"""
+def _job_cost(job, n):
+    """~ trace lines a job produces"""
+    if "cuts" in job:
+        return len(job["cuts"]) + 3
+    if job["gen"] == "all2":
+        return (job["to"] - job["from"] + 1) * 4
+    if job["gen"] == "bytes":
+        return n + 2
+    return job["count"] * 12
+
+
+def _stream_units(st, comps, rand_count, chunk):
+    """input lines of one corpus stream, cut into units of bounded cost; every unit starts with the
+    definition of the stream (the driver then runs the one-read reference execution first)"""
     sid, desc = st["sid"], fc.describe(st)
-    lines = [{"def": {"sid": sid, "hex": fc.data(st).hex(), "s": desc}}, {"sid": sid, "gen": "all2"}]
-    ncomp = 0
-    if comps:
-        ends = fc.cell_ends(st)
-        for c in comps:
-            cuts, k = [], 0
-            for s in c["steps"][:-1]:
-                k += s["n"]
-                cuts.append(ends[k - 1])
-            lines.append({"sid": sid, "cuts": cuts, "src": "tlc"})
-            ncomp += 1
-    lines.append({"sid": sid, "gen": "bytes"})
-    if rand_count:
-        lines.append({"sid": sid, "gen": "rand", "count": rand_count})
     n = desc["n"]
-    cost = (n - 1) * 4 + ncomp * 10 + n + rand_count * 12     # ~ trace lines
-    return lines, cost, desc
+    dline = {"def": {"sid": sid, "hex": fc.data(st).hex(), "s": desc}}
+    jobs = [{"sid": sid, "gen": "all2", "from": a, "to": min(a + 3999, n - 1)} for a in range(1, n, 4000)]
+    ends = fc.cell_ends(st)
+    for c in comps:
+        cuts, k = [], 0
+        for s in c["steps"][:-1]:
+            k += s["n"]
+            cuts.append(ends[k - 1])
+        jobs.append({"sid": sid, "cuts": cuts, "src": "tlc"})
+    jobs.append({"sid": sid, "gen": "bytes"})
+    jobs += [{"sid": sid, "gen": "rand", "count": min(2500, rand_count - a)} for a in range(0, rand_count, 2500)]
+    units, cur, cost = [], [dline], 0
+    for j in jobs:
+        c = _job_cost(j, n)
+        if cost + c > chunk and len(cur) > 1:
+            units.append((cost, cur))
+            cur, cost = [dline], 0
+        cur.append(j)
+        cost += c
+    units.append((cost, cur))
+    return units, desc
 
 
-def _run_part(chk, tag, lines, verbose=False):
+def _run_part(chk, tag, lines, verbose=False, seed=None):
     inp, trace = chk.path(f"in-{tag}.ndjson"), chk.path(f"trace-{tag}.ndjson")
     vf.write_ndjson(inp, lines)
-    r = vf.qxv("framing", trace, in_path=inp, seed=chk.seed, tier=chk.tier, opts={"verbose": 1} if verbose else None, check=False)
+    r = vf.qxv("framing", trace, in_path=inp, seed=seed or chk.seed, tier=chk.tier, opts={"verbose": 1} if verbose else None, check=False)
     if r["rc"] != 0:
         raise vf.MachineryError(f"qxv framing ({tag}) exited {r['rc']}: " + "; ".join(r["sanitizer"][:3]) + "\n" + r["stderr"][-2000:])
     s = vf.tlc_trace("FramingTrace.tla", "FramingTrace.cfg", trace, tag=f"FramingTrace-{tag}", heap="3g")
@@ -113,25 +131,26 @@ def run(chk, replay=None):
             m = s["sid"][:2]
             if s["sid"].startswith("m") and fc.shape_of(s) != shapes.get(m):
                 raise vf.MachineryError(f"corpus stream {s['sid']} does not instantiate the cells of model shape {m}")
-        items, descs = [], {}
+        units, descs = [], {}
+        chunk = 70000 if quick else 150000
         for s in streams:
             is_model = s["sid"].startswith("m")
             # quick: the compositions of a shape go to its first variant; thorough: to all variants
             use = comps.get(s["sid"][:2], []) if is_model and (not quick or s["sid"].endswith("a")) else []
-            rc = (60 if quick else 10000)
-            lines, cost, desc = _stream_lines(s, use, quick, rc)
+            u, desc = _stream_units(s, use, 60 if quick else 10000, chunk)
             descs[s["sid"]] = desc
-            items.append((cost, lines))
-        parts = [[] for _ in range(PARTS)]
-        load = [0] * PARTS
-        for cost, lines in sorted(items, key=lambda x: -x[0]):
+            units += u
+        nparts = max(PARTS, -(-sum(c for c, _ in units) // chunk))
+        parts = [[] for _ in range(nparts)]
+        load = [0] * nparts
+        for cost, lines in sorted(units, key=lambda x: -x[0]):
             i = load.index(min(load))
             parts[i] += lines
             load[i] += cost
         parts = [p for p in parts if p]
     # ---- 3/4. replay on the real XmppSocket over loopback TCP; trace validation ----------------
     with cf.ThreadPoolExecutor(max_workers=PARTS) as ex:
-        results = list(ex.map(lambda a: _run_part(chk, f"p{a[0]}", a[1], verbose=bool(replay)), enumerate(parts)))
+        results = list(ex.map(lambda a: _run_part(chk, f"p{a[0]}", a[1], verbose=bool(replay), seed=chk.seed * 1000 + a[0]), enumerate(parts)))
     tot = {k: sum(r["summary"][k] for r in results) for k in ("cases", "lines", "nviol", "ndiv", "nulls", "inexact", "refs")}
     chk.cov["traces_validated_against_impl"] = tot["cases"]
     chk.cov["evaluations"] = tot["cases"]
@@ -141,7 +160,8 @@ def run(chk, replay=None):
     chk.cov["null_elements_projected_away"] = tot["nulls"]
     chk.cov["reads_not_delivered_as_one_readyRead"] = tot["inexact"]
     chk.cov["violating_executions"] = tot["nviol"]
-    chk.cov["streams"] = tot["refs"]
+    chk.cov["streams"] = len(descs)
+    chk.cov["reference_runs"] = tot["refs"]
     chk.cov["exhaustive"] = True
     chk.cov["pipeline_wall_s"] = [{"qxv": r["qxv_wall_s"], "tlc_trace": r["summary"]["wall_s"], "lines": r["summary"]["lines"]} for r in results]
     ub = [x for r in results for x in r["ubsan"]]
@@ -186,11 +206,11 @@ def run(chk, replay=None):
             if key not in groups or cand[:2] < groups[key][:2]:
                 groups[key] = cand
     edge = lambda sid: (by_sid.get(sid) or {}).get("class", "plain") != "plain"
-    order = sorted(groups, key=lambda k: (edge(k[0]), k[2] != "mb", descs[k[0]]["n"], k[0], k[1]))
+    order = sorted(groups, key=lambda k: (edge(k[0]), groups[k][0], k[2] != "mb", descs[k[0]]["n"], k[0], k[1]))
     # one witness per kind of defect first (kind of cut; each unusual-but-valid stream is its own kind), then more streams
     seen_lab, first, rest = set(), [], []
     for k in order:
-        kind = (k[2], k[0] if edge(k[0]) else "")
+        kind = ("edge", k[0]) if edge(k[0]) else (k[2], "")
         (rest if kind in seen_lab else first).append(k)
         seen_lab.add(kind)
     chosen = (first + rest)[:MAX_REPORT]
@@ -225,10 +245,12 @@ def run(chk, replay=None):
             rf = ref[at - 1] if 0 < at <= len(ref) else None
             show = lambda z: "nothing" if z is None else (z["k"] + " " + z.get("x", "")[:300])
             st = by_sid.get(sid) or {}
-            what = (f"{prop} fails for stream {sid} ({st.get('note', '')}) split at byte offsets {cuts} (cut kinds: {', '.join(cl)}): "
+            scuts = ",".join(map(str, cuts)) if len(cuts) <= 12 else f"{len(cuts)}cuts-" + hashlib.sha1(json.dumps(cuts).encode()).hexdigest()[:8]
+            kinds = ", ".join(cl) if len(cl) <= 12 else ", ".join(sorted(set(cl)))
+            what = (f"{prop} fails for stream {sid} ({st.get('note', '')}) split at byte offsets [{scuts}] (cut kinds: {kinds}): "
                     f"delivery #{at} is [{show(g)}] but the one-read run delivers [{show(rf)}]; "
                     f"the split run delivered {len(got)} events, the one-read run {len(ref)}")
-            sig = f"C03:{prop}:{sid}:{lab}:cuts={','.join(map(str, cuts))}"
+            sig = f"C03:{prop}:{sid}:{lab}:cuts={scuts}"
             dline = next(b for b in confirm if "def" in b and b["def"]["sid"] == sid)
             chk.violation(sig, what, [dline, {"sid": sid, "cuts": cuts, "src": "replay"}] + _case_lines(c["trace"], sid + "/ref") + lines)
     chk.assumptions += [
